@@ -70,9 +70,14 @@ TARGETS = [
         (r'\bpath\b', '(*path)', 8), (r'\bstrlen\(', 'strlen_(', 1), (r'\bmemcpy\(', 'memcpy_(', 2), (r'sizeof\(buf\)', 'sizeof(this->buf)', 1),
         (r'LOG_ERROR_RETURN\(0, , [^;]*;', 'return;', 2),
         (r'(?<![\w.>])buf\b(?!\))', 'this->buf', 4)]),
+    Target('init', SF, r'int init\(IFileSystem\* _underlayfs, const char\* _base_path, bool _ownership\)', rules=[
+        fields_rule(['ownership', 'underlayfs', 'underlay_xattrfs', 'base_path', 'base_path_len'], min_fires=8),
+        (r'dynamic_cast<IFileSystemXAttr \*>\(_underlayfs\)', 'xattr_cast_(_underlayfs)', 1), (r'struct stat st;', 'struct stat_ st;', 1),
+        (r'this->underlayfs->stat\(', 'ufs_stat(this->underlayfs, ', 1), (r'LOG_ERROR_RETURN\(EINVAL, -1,[^;]*;', 'return -1;', 2),
+        (r'\bstrlen\(', 'strlen_(', 1), (r'\bmemcpy\(', 'memcpy_(', 1)]),
 ]
 
-UNITS = {'path.c': 'path.c.in'}
+UNITS = {'path.c': 'path.c.in', 'init.c': 'init.c.in'}
 
 PROOFS = [
     Proof('set', 'path.c', 'h_set', enforce='pit_set', kind='U', defines=['SMAX=4096'], expect_loops=2, min_obligations=30),
@@ -80,6 +85,7 @@ PROOFS = [
           defines=['SMAX=4096'], expect_loops=1, min_obligations=30),
     Proof('pathcat', 'path.c', 'h_pathcat', enforce='PathCat_ctor', replace=['path_level_valid', 'strlen_'], kind='U',
           defines=['SMAX=4096', 'WITH_PATHCAT'], min_obligations=20),
+    Proof('init', 'init.c', 'h_init', kind='L', min_obligations=6),
     Proof('bounded/level_valid', 'path.c', 'h_bounded', kind='B', defines=['SMAX=4096', 'B_MODE', 'BN=7'], unwind=10,
           bound='all strings of length <= 7 over {/ . a}', cex_for=['level_valid', 'set'], timeout=600),
 ]
